@@ -191,6 +191,27 @@ example : calm s0 calmOps = true ∧
     txSelect (run s0 calmOps) 3 0 (.and (.eq 0 8) (.ne 1 0)) = .rows [(2, [8, 1])] ∧
     txSelect (run s0 calmOps) 6 0 .all = .err .txNotFound := by decide
 
+/-- a calm script over a table whose column 0 is nullable and carries a hash and a b-tree index: committed
+    rows `[NULL,1]`, `[3,3]`; the open transaction 2 turns NULL into 4, 3 into NULL and inserts `[NULL,5]` -/
+def nullOps : List Op := [.createTable 2 [0], .createIndex 0 0, .createBtree 0 0,
+  .insert 0 [.null, 1], .insert 0 [3, 3], .begin, .txUpdate 2 0 (.idEq 0) [(0, 4)], .txUpdate 2 0 (.idEq 1) [(0, .null)],
+  .txInsert 2 0 [.null, 5]]
+
+/-- non-vacuity with NULLs: `= NULL` is answered through the hash index (bucket of NULL), the b-tree range
+    `..= 9` scans the NULL keys too (candidates 0, 1, 2) but the re-check drops them, a comparison with NULL
+    matches nothing; after the rollback the NULL entry of row 0 is back and the others are gone; NULL for the
+    column that refuses it fails as a whole -/
+example : calm s0 nullOps = true ∧ gate (run s0 nullOps) 2 = none ∧
+    ((run s0 nullOps).tables 0).map (select · (.eq 0 .null)) = some [(1, [.null, 3]), (2, [.null, 5])] ∧
+    ((run s0 nullOps).tables 0).map (candidates · (.le 0 9)) = some (some [0, 1, 2]) ∧
+    ((run s0 nullOps).tables 0).map (select · (.le 0 9)) = some [(0, [4, 1])] ∧
+    ((run s0 nullOps).tables 0).map (select · (.ge 0 .null)) = some [] ∧
+    ((rollback (run s0 nullOps) 2).1.tables 0).map (select · (.eq 0 .null)) = some [(0, [.null, 1])] ∧
+    ((rollback (run s0 nullOps) 2).1.tables 0).map (select · (.le 0 9)) = some [(1, [3, 3])] ∧
+    (txInsert (run s0 nullOps) 2 0 [1, .null]).2 = .err .badInput ∧
+    (txUpdate (run s0 nullOps) 2 0 .all [(1, .null)]).2 = .err .badInput ∧
+    (update (run s0 nullOps) 0 (.idEq 4) [(1, .null)]).2 = .err .badInput := by decide
+
 /-! ## the lock sweep -/
 
 /-- `cleanup_expired_locks` removes only locks that no longer count: in EVERY state the
